@@ -95,6 +95,40 @@ Lemma ev_mar_of_norm t x r : ev (fun m => mar rt E m (norm t) x) r -> ev (fun m 
 Proof. intros H. apply (ev_unshift _ r (wdepth t)).
   apply (ev_ext _ (fun m => mar rt E m (norm t) x)); [intros m; apply mar_norm|exact H]. Qed.
 
+Lemma ev_unm_to_norm t x r : ev (fun m => unm rt E m t x) r -> ev (fun m => unm rt E m (norm t) x) r.
+Proof. intros H. apply (ev_ext _ (fun m => unm rt E (wdepth t + m) t x)); [intros m; symmetry; apply unm_norm|].
+  exact (ev_shift _ _ (wdepth t) H). Qed.
+Lemma ev_mar_to_norm t x r : ev (fun m => mar rt E m t x) r -> ev (fun m => mar rt E m (norm t) x) r.
+Proof. intros H. apply (ev_ext _ (fun m => mar rt E (wdepth t + m) t x)); [intros m; symmetry; apply mar_norm|].
+  exact (ev_shift _ _ (wdepth t) H). Qed.
+
+(* the reference semantics does not distinguish equivalent normal forms: the name of an alias object converts like
+   (the normal form of) its value *)
+Lemma ev_unm_aeq a b : aeq E a b -> forall x r, ev (fun m => unm rt E m a x) r <-> ev (fun m => unm rt E m b x) r.
+Proof. induction 1 as [a|a b H IH|a b c H1 IH1 H2 IH2|n v En]; intros x r.
+  - split; exact (fun H0 => H0).
+  - destruct (IH x r) as [A B]. split; assumption.
+  - destruct (IH1 x r) as [A1 B1]. destruct (IH2 x r) as [A2 B2].
+    split; intros H0; [apply A2, A1|apply B1, B2]; exact H0.
+  - assert (Hs : forall m, unm rt E (S m) (TName n) x = unm rt E m v x)
+      by (intros m; rewrite unm_S; unfold named_body; rewrite En; reflexivity).
+    split; intros H.
+    + apply ev_unm_to_norm. apply (ev_ext _ (fun m => unm rt E (1 + m) (TName n) x)); [intros m; symmetry; apply Hs|].
+      exact (ev_shift _ _ 1 H).
+    + apply ev_S. apply (ev_ext _ (fun m => unm rt E m v x)); [exact Hs|]. apply ev_unm_of_norm. exact H. Qed.
+Lemma ev_mar_aeq a b : aeq E a b -> forall x r, ev (fun m => mar rt E m a x) r <-> ev (fun m => mar rt E m b x) r.
+Proof. induction 1 as [a|a b H IH|a b c H1 IH1 H2 IH2|n v En]; intros x r.
+  - split; exact (fun H0 => H0).
+  - destruct (IH x r) as [A B]. split; assumption.
+  - destruct (IH1 x r) as [A1 B1]. destruct (IH2 x r) as [A2 B2].
+    split; intros H0; [apply A2, A1|apply B1, B2]; exact H0.
+  - assert (Hs : forall m, mar rt E (S m) (TName n) x = mar rt E m v x)
+      by (intros m; rewrite mar_S; unfold mnamed_body; rewrite En; reflexivity).
+    split; intros H.
+    + apply ev_mar_to_norm. apply (ev_ext _ (fun m => mar rt E (1 + m) (TName n) x)); [intros m; symmetry; apply Hs|].
+      exact (ev_shift _ _ 1 H).
+    + apply ev_S. apply (ev_ext _ (fun m => mar rt E m v x)); [exact Hs|]. apply ev_mar_of_norm. exact H. Qed.
+
 (* ------------------------------------------------------------ helper lemmas on the member slots *)
 Lemma first_ok_ev (fs : list (pv -> res pv)) (gs : nat -> list (pv -> res pv)) x :
   (forall m, length (gs m) = length fs) ->
@@ -157,8 +191,9 @@ Proof.
   assert (IHn : forall r' a' v, R r' (norm a') -> done (runu n r' v) = true ->
                  ev (fun m => unm rt E m a' v) (runu n r' v)).
   { intros r' a' v Hr' Hdv. apply ev_unm_of_norm. apply IH; assumption. }
-  apply ev_S. inversion Hr; subst; cbn [run] in Hd |- *;
-    (eapply ev_ext; [intros m; apply unm_S|]); cbv beta iota.
+  revert x Hd. induction Hr as [s| |k r a Hra _|k rk rv kt vt Hrk _ Hrv _|rs ts HF|rs ts HF|c cd frs Ec HF|t a Ha|s Hs|n0 v r En Hr IHr];
+    intros x Hd.
+  1-9: (apply ev_S; cbn [run] in Hd |- *; (eapply ev_ext; [intros m; apply unm_S|]); cbv beta iota).
   - (* leaf *) apply ev_const.
   - (* none *) apply ev_const.
   - (* seq *) unfold seq_body.
@@ -185,7 +220,7 @@ Proof.
     apply ev_bind; [|intros out _; apply ev_const|exact Hd].
     assert (Hdm : done (mapM (fun rv => runu n (fst rv) (snd rv)) (zip_trunc rs vs)) = true).
     { destruct (bind_done _ _ Hd) as [[o [Ho _]]|[e He]]; [rewrite Ho|rewrite He]; reflexivity. }
-    clear Hd Hr. revert vs Hdm. match goal with H : Forall2 _ rs ts |- _ => induction H as [|r0 t0 rs0 ts0 Hrt HF IHF] end;
+    clear Hd. revert vs Hdm. match goal with H : Forall2 _ rs ts |- _ => induction H as [|r0 t0 rs0 ts0 Hrt HF IHF] end;
       intros vs Hdm; [exists 0; reflexivity|].
     destruct vs as [|v vs]; [exists 0; reflexivity|]. cbn [zip_trunc mapM fst snd] in *.
     destruct (runu n r0 v) as [y|e| |] eqn:Ey; cbn [bind done] in Hdm; try discriminate Hdm.
@@ -239,10 +274,13 @@ Proof.
     destruct (build_routes E true noop_leaf orders t pre root Eo Hord) as [r' [Hb Hr']];
       [rewrite Hroot; apply norm_evaluate|].
     unfold build_root in Hb. rewrite Eo in Hb. rewrite Hb in Hd |- *. cbn [bind] in Hd |- *.
-    assert (Hx : ev (fun m => unm rt E m (norm t) x) (runu n r' x)) by (apply IH; [exact Hr'|exact Hd]).
-    eapply ev_ext; [intros m; symmetry; apply (unm_S rt E m (norm t) x)|].
+    assert (Hx : ev (fun m => unm rt E m a x) (runu n r' x))
+      by (apply IH; [exact (proj1 (routes'_aeq E true noop_leaf _ _ Ha r') Hr')|exact Hd]).
+    eapply ev_ext; [intros m; symmetry; apply (unm_S rt E m a x)|].
     exact (ev_shift _ _ 1 Hx).
   - (* noop *) rewrite noop_u by assumption. apply ev_const.
+  - (* the name of an alias object: the routine routes the normal form of its value *)
+    apply (proj2 (ev_unm_aeq (TName n0) (norm v) (Aq_step E n0 v En) x _)). apply IHr. exact Hd.
 Qed.
 
 Theorem api_u_sound T fuel x :
@@ -276,8 +314,9 @@ Proof.
   assert (IHn : forall r' a' v, R r' (norm a') -> done (runm n r' v) = true ->
                  ev (fun m => mar rt E m a' v) (runm n r' v)).
   { intros r' a' v Hr' Hdv. apply ev_mar_of_norm. apply IH; assumption. }
-  apply ev_S. inversion Hr; subst; cbn [run] in Hd |- *;
-    (eapply ev_ext; [intros m; apply mar_S|]); cbv beta iota.
+  revert x Hd. induction Hr as [s| |k r a Hra _|k rk rv kt vt Hrk _ Hrv _|rs ts HF|rs ts HF|c cd frs Ec HF|t a Ha|s Hs|n0 v r En Hr IHr];
+    intros x Hd.
+  1-9: (apply ev_S; cbn [run] in Hd |- *; (eapply ev_ext; [intros m; apply mar_S|]); cbv beta iota).
   - (* leaf *) apply ev_const.
   - (* none *) apply ev_const.
   - (* seq *) unfold mseq_body.
@@ -299,7 +338,7 @@ Proof.
     apply ev_bind; [|intros out _; apply ev_const|exact Hd].
     assert (Hdm : done (mapM (fun rv => runm n (fst rv) (snd rv)) (zip_trunc rs vs)) = true).
     { destruct (bind_done _ _ Hd) as [[o [Ho _]]|[e He]]; [rewrite Ho|rewrite He]; reflexivity. }
-    clear Hd Hr. revert vs Hdm. match goal with H : Forall2 _ rs ts |- _ => induction H as [|r0 t0 rs0 ts0 Hrt HF IHF] end;
+    clear Hd. revert vs Hdm. match goal with H : Forall2 _ rs ts |- _ => induction H as [|r0 t0 rs0 ts0 Hrt HF IHF] end;
       intros vs Hdm; [exists 0; reflexivity|].
     destruct vs as [|v vs]; [exists 0; reflexivity|]. cbn [zip_trunc mapM fst snd] in *.
     destruct (runm n r0 v) as [y|e| |] eqn:Ey; cbn [bind done] in Hdm; try discriminate Hdm.
@@ -353,10 +392,13 @@ Proof.
     destruct (build_routes E false noop_leaf orders t pre root Eo Hord) as [r' [Hb Hr']];
       [rewrite Hroot; apply norm_evaluate|].
     unfold build_root in Hb. rewrite Eo in Hb. rewrite Hb in Hd |- *. cbn [bind] in Hd |- *.
-    assert (Hx : ev (fun m => mar rt E m (norm t) x) (runm n r' x)) by (apply IH; [exact Hr'|exact Hd]).
-    eapply ev_ext; [intros m; symmetry; apply (mar_S rt E m (norm t) x)|].
+    assert (Hx : ev (fun m => mar rt E m a x) (runm n r' x))
+      by (apply IH; [exact (proj1 (routes'_aeq E false noop_leaf _ _ Ha r') Hr')|exact Hd]).
+    eapply ev_ext; [intros m; symmetry; apply (mar_S rt E m a x)|].
     exact (ev_shift _ _ 1 Hx).
   - (* noop *) rewrite noop_m by assumption. apply ev_const.
+  - (* the name of an alias object: the routine routes the normal form of its value *)
+    apply (proj2 (ev_mar_aeq (TName n0) (norm v) (Aq_step E n0 v En) x _)). apply IHr. exact Hd.
 Qed.
 
 Theorem api_m_sound T fuel x :
